@@ -791,7 +791,8 @@ func (s *Session) MapExecuteBatchCAS(batch *Batch, dest map[string]interface{}) 
 		return false, nil, err
 	}
 	iter.MapScan(dest)
-	applied = dest["[applied]"].(bool)
+	// when the row could not be scanned the map has no [applied] entry: report the error, do not panic
+	applied, _ = dest["[applied]"].(bool)
 	delete(dest, "[applied]")
 
 	// we usually close here, but instead of closing, just returin an error
@@ -1380,7 +1381,8 @@ func (q *Query) MapScanCAS(dest map[string]interface{}) (applied bool, err error
 		return false, err
 	}
 	iter.MapScan(dest)
-	applied = dest["[applied]"].(bool)
+	// when the row could not be scanned the map has no [applied] entry: report the error, do not panic
+	applied, _ = dest["[applied]"].(bool)
 	delete(dest, "[applied]")
 
 	return applied, iter.Close()
